@@ -142,7 +142,7 @@ struct Cell {
     uint32_t wpc[8];
     uint32_t rpc[8][2];
 };
-static const size_t SHADOW_BITS = 16;
+static const size_t SHADOW_BITS = 18;
 static const size_t SHADOW_SIZE = 1u << SHADOW_BITS;
 static Cell *g_shadow = nullptr;
 static uint32_t g_epoch = 1;
